@@ -216,6 +216,19 @@ macro_rules! bytes_type {
         if !ok || bad {
             $ctx.fail("C14.eq-str", feats($name, "== str/&str/String/[u8]"), format!("{}: comparison of {} with a string is not plain text equality", $name, show($s.as_bytes())));
         }
+        // fixed-size byte arrays
+        macro_rules! arr { ($n:literal) => {
+            if let Ok(a) = <[u8; $n]>::try_from($s.as_bytes()) {
+                $ctx.call("== [u8; N]");
+                #[allow(unused_mut)]
+                let mut d = a;
+                if $n > 0 { d[$n - 1] ^= 0x20; }
+                if !(*$v == a) || !(*$v == &a) || !($o == a) || ($n > 0 && (*$v == d || *$v == &d || $o == d)) {
+                    $ctx.fail("C14.eq-str", feats($name, "== [u8; N]"), format!("{}: comparison of {} with a byte array is not plain text equality", $name, show($s.as_bytes())));
+                }
+            }
+        } }
+        arr!(0); arr!(1); arr!(2); arr!(3); arr!(4); arr!(5); arr!(6); arr!(7); arr!(8); arr!(12); arr!(16);
     }};
 }
 
